@@ -29,6 +29,9 @@ SHAPES = [
 # the same learner class on a batched and on an unbatched environment (what SafeLearner learns about one must not leak to the other)
 BATCH_SHAPES = [dict(tr=[(0, 0, 0), (1, 0, 0), (1, 1, 0)], ch=[0, 0], fail=[], batch=[1]),
                 dict(tr=[(0, 0, 0), (1, 1, 0), (2, 0, 0)], ch=[1, 1, 0], fail=[], batch=[0, 1])]
+# an ENVIRONMENT that raises while being read (at once / after two interactions): every triple on it fails, nothing else does
+ENVFAIL_SHAPES = [dict(tr=[(0, 0, 0), (1, 0, 0), (1, 1, 0), (2, 1, 0)], ch=[0, 0, 0], fail=[(1, 0, 0), (1, 1, 0)], wheres=["env"]),
+                  dict(tr=[(0, 0, 0), (0, 1, 0), (1, 0, 0), (2, 0, 0)], ch=[1, 1, 1], fail=[(0, 0, 0), (0, 1, 0)], wheres=["env"])]
 IDCOLS = {"environment_id", "learner_id", "evaluator_id"}
 
 
@@ -67,10 +70,10 @@ def run(ctx):
     spec_runs(ctx)
     d = os.path.join(ctx.scratch, "runs"); os.makedirs(d, exist_ok=True)
     traces = []; meta = []
-    shapes = SHAPES[:ctx.pick(4, 6)] + BATCH_SHAPES + [dict(explib.BUILTIN_SHAPES[0], fail=[(1, 0, 0)]), explib.BUILTIN_SHAPES[1]]
+    shapes = SHAPES[:ctx.pick(4, 6)] + BATCH_SHAPES + [dict(explib.BUILTIN_SHAPES[0], fail=[(1, 0, 0)]), explib.BUILTIN_SHAPES[1]] + ENVFAIL_SHAPES
     wheres = ["start", "middle", "predict", "learn"]
     for si, shape in enumerate(shapes):
-        for where in (wheres if shape["fail"] else [None]):
+        for where in (shape.get("wheres") or (wheres if shape["fail"] else [None])):
             fail = {tuple(f) for f in shape["fail"]}
             # solo references: each triple alone, fresh objects
             solo = {}
